@@ -49,10 +49,11 @@ const (
 	c19AllocFactor = 24
 	c19AllocConst  = 384 << 10
 	c19ChildMemory = 3 << 30 // RLIMIT_AS of the child
+	c19AllocPerReply = 512 << 10
 )
 
 type c19Case struct {
-	Decoder  string `json:"decoder"` // format | archive | index | message | httpput
+	Decoder  string `json:"decoder"` // format | archive | index | message | httpput | server | client
 	Digest   string `json:"digest,omitempty"`
 	InputHex string `json:"input_hex"`
 	Gen      string `json:"generator"`
@@ -282,6 +283,8 @@ func c19RunOne(c *c19Case) *c19Out {
 		} else {
 			out.Status, out.Err = "err", strconv.Itoa(rec.Code)
 		}
+	case "server", "client":
+		c19RunProto(c, in, out, &m)
 	default:
 		out.Status, out.Err = "err", "unknown decoder"
 	}
@@ -310,6 +313,7 @@ func runC19Child(a vh.Args, o *vh.Oracle, r *vh.Result) error {
 	// warm up lazily initialised runtime/library state so that it is not charged to the first case
 	c19RunOne(&c19Case{Decoder: "format", InputHex: "00"})
 	c19RunOne(&c19Case{Decoder: "httpput", Digest: "sha256", InputHex: "00"})
+	c19ProtoWarmUp() // the zstd encoder/decoder set themselves up on first use
 	for i, c := range cases {
 		fmt.Fprintf(f, "start %d\n", i)
 		out := c19RunOne(c)
@@ -493,13 +497,28 @@ func c19Evaluate(o *vh.Oracle, r *vh.Result, c *c19Case) error {
 		r.Sample(map[string]interface{}{"decoder": c.Decoder, "generator": c.Gen, "input_len": len(in), "status": c.Impl.Status, "items": len(c.Impl.Items), "alloc": c.Impl.Alloc})
 	}
 	// ---- predicate ----
+	// a CHUNK reply whose zstd frame header declares far more than the payload holds: Decompress allocates it
+	zstdDeclared := uint64(0)
+	if c.Decoder == "client" {
+		zstdDeclared = c19ZstdDeclared(in)
+	}
 	if st == "crash" {
 		how := strings.SplitN(c.Impl.Status[6:], ":", 2)[0]
+		if how == "out-of-memory" && zstdDeclared > 1<<28 {
+			r.Fail("predicate", "client/zstd-declared-size", fmt.Sprintf("client: out of memory on %d bytes of input: a CHUNK payload's zstd frame header declares %d bytes (%s)", len(in), zstdDeclared, c.Gen), c)
+			return nil
+		}
 		r.Fail("predicate", c.Decoder+"/"+how, fmt.Sprintf("%s decoder: %s on %d bytes of input (%s)", c.Decoder, c.Impl.Status[6:], len(in), c.Gen), c)
 		return nil
 	}
 	bound := uint64(c19AllocFactor*len(in) + c19AllocConst)
-	if c.Impl.Alloc > bound {
+	if c.Decoder == "server" {
+		// serving a chunk compresses it (zstd EncodeAll): work per reply sent, not per input byte
+		bound += uint64(len(c.Impl.Items)) * c19AllocPerReply
+	}
+	if c.Impl.Alloc > bound && zstdDeclared > uint64(c19AllocConst) && c.Impl.Alloc < 2*zstdDeclared+bound {
+		r.Fail("predicate", "client/zstd-declared-size", fmt.Sprintf("client allocated %d bytes for %d bytes of input: a CHUNK payload's zstd frame header declares %d bytes and Decompress allocates that before decoding (%s)", c.Impl.Alloc, len(in), zstdDeclared, c.Gen), c)
+	} else if c.Impl.Alloc > bound {
 		r.Fail("predicate", c.Decoder+"/allocation", fmt.Sprintf("%s decoder allocated %d bytes for %d bytes of input (bound %d; %s)", c.Decoder, c.Impl.Alloc, len(in), bound, c.Gen), c)
 	}
 	if o == nil {
@@ -515,6 +534,10 @@ func c19Evaluate(o *vh.Oracle, r *vh.Result, c *c19Case) error {
 		ans, err = o.Call("c19.archive", vh.Hex(in))
 	case "message":
 		ans, err = o.Call("c19.msgs", vh.Hex(in))
+	case "server":
+		ans, err = o.Call("c19.serve", c19ProtoStoreIDs(), vh.Hex(in))
+	case "client":
+		ans, err = o.Call("c19.client", vh.Hex(in))
 	case "index", "httpput":
 		ans, err = o.Call("c04.decode", c.Digest, vh.Hex(in))
 		if err == nil {
@@ -564,7 +587,7 @@ func c19Evaluate(o *vh.Oracle, r *vh.Result, c *c19Case) error {
 		}
 	}
 	// the model's ghost counter against the measurement: the Go cost of what the model counts is a small multiple
-	if c.Impl.Alloc > 8*malloc+uint64(c19AllocFactor*len(in))+c19AllocConst {
+	if c.Impl.Alloc > 8*malloc+bound && !(zstdDeclared > uint64(c19AllocConst) && c.Impl.Alloc < 2*zstdDeclared+bound) { // (that case is the predicate's finding above, not a disagreement about the framing)
 		r.Fail("corr", "corr:C19/"+c.Decoder+"-alloc", fmt.Sprintf("measured %d bytes, model counts %d", c.Impl.Alloc, malloc), c)
 	}
 	return nil
@@ -911,6 +934,8 @@ func c19Generate(a vh.Args, rng *vh.Rand) []*c19Case {
 	}
 	everyDecoder("empty", nil)
 	add("httpput", "empty", nil)
+	// 4. the protocol endpoints
+	c19ProtoCases(rng, thorough, add)
 	return cases
 }
 
